@@ -222,7 +222,9 @@ def init_state(spec):
 def solver_final(p, psi, dm, tlist):
     """run_state (noise-free processor).  -> (final state as ndarray, how, error or None)"""
     qutip = _impl()[0]
-    opts = {"atol": 1e-10, "rtol": 1e-10, "nsteps": 100000}
+    # dop853: the default multistep "adams" integrator loses accuracy at the jumps of step pulses
+    # (observed 4e-6 at atol=rtol=1e-10, 2.5e-5 with default options); that is solver numerics, not the model
+    opts = {"method": "dop853", "atol": 1e-10, "rtol": 1e-10, "nsteps": 100000}
     init = psi * psi.dag() if dm else psi
     err = None
     try:
@@ -629,7 +631,7 @@ class C14(PropertyCheck):
                 res.disagree({"numeric": spec}, "ordered expm product over the model's merged grid", d, d,
                              {"kind": "evolution", "spec": spec})
         res.notes.append("numeric stream (partial): run_analytically, get_full_coeffs, run_state (ket and density matrix, "
-                         "atol=rtol=1e-10, compared to 2e-6) and save/reload against an independent scipy.linalg.expm product "
+                         "method dop853, atol=rtol=1e-10, compared to 2e-6) and save/reload against an independent scipy.linalg.expm product "
                          "over the model's merged grid; solver reached through: " + ", ".join(sorted(solver_how)))
 
     def _fixed_coeffs(self, ctx, res, grids, coeffs):
@@ -718,7 +720,37 @@ class C14(PropertyCheck):
                 return False, "coefficients survive the round trip"
             finally:
                 shutil.rmtree(d, ignore_errors=True)
-        if kind in ("coeffs", "fill", "tlist", "labels"):
+        if kind == "labels":
+            labels, inctime = w["labels"], w["inctime"]
+            if any(";" in l or "\n" in l for l in labels) or len(set(labels)) != len(labels):
+                return False, "precondition not met (separator or newline inside a label)"
+            if len(labels) == 1 and not inctime:
+                return False, "single pulse without time column (recorded finding class), not judged"
+            spec = {"dims": [2], "seed": 5, "drift": None, "dm": False,
+                    "chans": [{"targets": [0], "tlist": [0.0, 0.5 + 0.25 * i, 1.25 + 0.5 * i], "coeff": [0.5, -0.25 + i]}
+                              for i in range(len(labels))]}
+            d = tempfile.mkdtemp(prefix="c14-")
+            try:
+                p, labs, _d, _m = build_processor(spec, labels)
+                load_pulses(p, labs, spec)
+                fn = os.path.join(d, "c.txt")
+                try:
+                    p.save_coeff(fn, inctime=inctime)
+                    p2, _l, _d2, _m2 = build_processor(spec, labels)
+                    p2.read_coeff(fn, inctime=inctime)
+                except Exception as e:
+                    return True, f"save_coeff/read_coeff raises {type(e).__name__}: {e}"
+                got = [q.label for q in p2.pulses]
+                if got != labels:
+                    return True, f"labels after reload {got}, saved {labels}"
+                C0 = np.asarray(p.get_full_coeffs())
+                for q, row in zip(p2.pulses, C0):
+                    if np.ndim(q.coeff) != 1 or len(q.coeff) != len(row) or np.abs(q.coeff - row).max() > 1e-15:
+                        return True, f"reloaded coefficient of pulse {q.label!r} differs from the saved row"
+                return False, "labels and coefficients survive the round trip"
+            finally:
+                shutil.rmtree(d, ignore_errors=True)
+        if kind in ("coeffs", "fill", "tlist"):
             return self._oracle_exact(ctx, w)
         return False, "unknown witness kind"
 
@@ -769,6 +801,10 @@ class C14(PropertyCheck):
         while time.time() - t0 < budget_s:
             spec = make_spec(rng, last_zero=True)
             w = {"kind": "evolution", "spec": spec}
+            f, d = self.oracle_replay(ctx, w)
+            if f:
+                yield w, d
+            w = {"kind": "labels", "labels": [f"p{i}" for i in range(rng.randint(1, 3))], "inctime": rng.random() < 0.5}
             f, d = self.oracle_replay(ctx, w)
             if f:
                 yield w, d
